@@ -1,0 +1,25 @@
+//go:build verif
+
+// Package verifhook provides named schedule-control points for the runtime
+// verification harness. With the verif build tag a harness may register a
+// callback that sleeps or blocks at a point; without it Point is empty.
+package verifhook
+
+import "sync/atomic"
+
+var cb atomic.Value // of func(string)
+
+// Set registers the callback run at every Point (nil clears it).
+func Set(f func(name string)) {
+	if f == nil {
+		f = func(string) {}
+	}
+	cb.Store(f)
+}
+
+// Point runs the registered callback, if any.
+func Point(name string) {
+	if f, ok := cb.Load().(func(string)); ok {
+		f(name)
+	}
+}
